@@ -22,13 +22,13 @@ NA = {
 
 LEVEL = {
  "C01": ("bounded model checking of one kernel of the property: the line-end decision function of the look-ahead mechanism, for every pair of ASCII texts up to the stated length and every tag-count pair, against a declarative oracle; the rest of C01 (interpreter, compiler) is outside this check", "3/C01"),
- "C02": ("bounded model checking of the scalar half of the save format: flag words and call-stack type codes survive write->read for every value of their type; structured state (flows, threads, variables, lists) is outside", "3/C02"),
+ "C02": ("bounded model checking of the scalar half of the save format: container count flags, choice-point flags, call-stack type codes and Int/Bool values survive write->read for every value of their type (write side of Int/Bool mirrors the json!(v) lines of write_rtobject under a source-text guard); floats and all structured state (flows, threads, variables, lists) are outside", "3/C02"),
  "C03": ("bounded model checking of the places where a result is taken from hash-map iteration order (list max/min/ordering/value lookup): same result for every insertion order and every tie pattern among symbolic item values, under the documented map model", "3/C03"),
  "C04": ("bounded model checking of NativeFunctionCall::call for every operator x scalar operand shape with fully symbolic operand values: never panics (all Rust arithmetic/unwrap/index checks on), faults are Err; interpreter-level panics are outside", "3/C04"),
  "C07": ("bounded model checking of the runtime evaluator against an independent reference evaluator: type and value of every native operator on Bool/Int/Float operands (all values), list algebra on small lists under the map model", "3/C07"),
- "C14": ("bounded model checking of the streaming tokenizer's scalar conversions and single-escape string decoding against JSON's definition", "3/C14"),
+ "C14": ("bounded model checking of the streaming tokenizer's number conversions and a differential check that both loaders build the same object from the same int/float/bool leaf token; string escapes and all structure are outside (reduced claim, DESIGN 3/C14)", "3/C14"),
  "C15": ("bounded model checking of the loader on every leaf token (null, bool, any i64/u64/f64 number, ASCII strings of length <= 2, short token lists): Ok or Err, never a panic; object-shaped tokens are outside", "3/C15"),
- "C20": ("bounded model checking of the CLI's JSON string escaping for every Unicode scalar value at the one-character bound", "3/C20"),
+ "C20": ("bounded model checking of the CLI's JSON string escaping: every Unicode scalar value as a one-character input, every pair and triple of ASCII characters, against RFC 8259's definition of a string body", "3/C20"),
 }
 
 def main():
